@@ -25,7 +25,7 @@ for pid in ids:
         })
 manifest = {
  "version": 1,
- "setup_cmd": "python3 harness/importgraph.py --regenerate && (python3 harness/py2lean.py > /dev/null || true) && cd lean && lake build EoVerif driver && (lake build EoVerif.Props.C20 || true) && (lake build EoVerif.Props.SrcNum EoVerif.Props.SrcHash EoVerif.Props.SrcSeq EoVerif.Props.SrcStr EoVerif.Props.SrcEnc EoVerif.Props.SrcEncSwap EoVerif.Props.SrcWriter EoVerif.Props.SrcReader EoVerif.Props.SrcNames EoVerif.Props.SrcPropsC07 EoVerif.Props.SrcPropsC08 EoVerif.Props.SrcPropsC09 EoVerif.Props.SrcPropsC10 EoVerif.Props.SrcPropsC11 EoVerif.Props.SrcPropsC12 EoVerif.Props.SrcPropsC05 EoVerif.Props.SrcPropsC04 EoVerif.Props.SrcPropsC09b EoVerif.Props.SrcPropsC06 EoVerif.Props.SrcPropsC13 EoVerif.Props.SrcPropsC05b EoVerif.Props.SrcPropsC09c EoVerif.Props.SrcPropsC04b || true)",
+ "setup_cmd": "python3 harness/importgraph.py --regenerate && (python3 harness/py2lean.py > /dev/null || true) && cd lean && lake build EoVerif driver && (lake build EoVerif.Props.C20 || true) && (lake build EoVerif.Props.SrcNum EoVerif.Props.SrcHash EoVerif.Props.SrcSeq EoVerif.Props.SrcStr EoVerif.Props.SrcEnc EoVerif.Props.SrcEncSwap EoVerif.Props.SrcWriter EoVerif.Props.SrcReader EoVerif.Props.SrcNames EoVerif.Props.SrcPropsC07 EoVerif.Props.SrcPropsC08 EoVerif.Props.SrcPropsC09 EoVerif.Props.SrcPropsC10 EoVerif.Props.SrcPropsC11 EoVerif.Props.SrcPropsC12 EoVerif.Props.SrcPropsC05 EoVerif.Props.SrcPropsC04 EoVerif.Props.SrcPropsC09b EoVerif.Props.SrcPropsC06 EoVerif.Props.SrcPropsC13 EoVerif.Props.SrcPropsC05b EoVerif.Props.SrcPropsC09c EoVerif.Props.SrcPropsC04b EoVerif.Props.SrcPropsC10b || true)",
  "hooks": {
   "guard": "EOLIB_VERIF",
   "enable": "no source hooks are needed: the harness substitutes module attributes (random source, os.walk) from outside; nothing in /repo is guarded",
